@@ -272,7 +272,7 @@ inline void doCopy(State &S, const Val &dst, const Val &src, Val n, const Instru
   i128 slo, shi; offsetBounds(S, src, slo, shi);
   if (!CFG.traceRegions.empty()) {
     // a copy out of a traced region is an echo, not a use: recorded as an event so that later reads of the destination can be mapped back
-    if (RS.traced) addEvent(S, "{\"k\":\"copy\",\"fn\":\"" + std::string(I->getFunction()->getName()) + "\",\"line\":" + std::to_string(lineOf(I)) + ",\"src\":\"" + RS.name + "\",\"soff\":" + rangeJ(slo, shi) +
+    if (RS.traced) traceEvent("{\"k\":\"copy\",\"fn\":\"" + std::string(I->getFunction()->getName()) + "\",\"line\":" + std::to_string(lineOf(I)) + ",\"src\":\"" + RS.name + "\",\"soff\":" + rangeJ(slo, shi) +
                              ",\"dst\":\"" + RD.name + "\",\"doff\":" + rangeJ(dlo, dhi) + ",\"len\":" + rangeJ(nlo, nhi) + ",\"root\":" + std::to_string(n.root) + ",\"rk\":" + i128s(n.rk) + "}");
   }
   std::map<int64_t, std::pair<unsigned, Val>> movedScalars;
